@@ -116,14 +116,16 @@ def monitored_class():
 
 def cases(tier, seed):
     n = 1200 if tier == "quick" else 12000
-    return [{"id": "pts/%d" % i, "seed": [seed, 8, i]} for i in range(n)]
+    out = [{"id": "pts/%d" % i, "seed": [seed, 8, i]} for i in range(n)]
+    out += [{"id": "edge/%d" % i, "edge": True, "seed": [seed, 88, i]} for i in range(n // 10)]
+    return out
 
 
 def targets(tier):
     k = 3 if tier == "quick" else 30
     return {"trees_built": 350 * k, "trees_8plus_leaves": 120 * k, "fills_checked": 1200 * k, "contract_evaluations": 1500 * k,
             "nodes_compared": 6000 * k, "plot_frames_checked": 300 * k, "kl_checked": 600 * k, "family:adjacent": 20 * k,
-            "family:lattice": 30 * k, "family:duplicates": 30 * k, "fills_with_reset": 150 * k, "fills_accumulating": 300 * k}
+            "family:lattice": 30 * k, "family:duplicates": 30 * k, "fills_with_reset": 150 * k, "fills_accumulating": 300 * k, "edge_cases_checked": 30 * k}
 
 
 def gen_points(rng):
@@ -195,8 +197,68 @@ def pair_nodes(inode, mnode, out):
     return out
 
 
+def run_edge(case, ctx):
+    """API edges of the partitioner: reset(value, id), depth-limited / named plot frames, 1-d and empty inputs, queries before build"""
+    rng = gen.rng_for(case["seed"])
+    fam, X = gen_points(rng)
+    n, d = X.shape
+    cub = int(rng.choice([1, 2, 3, 5]))
+    P = monitored_class()(count_ubound=cub, cutpoint_proportion_lbound=0.0)
+    base = dict(family=fam, shape=[n, d], count_ubound=cub)
+    # before build: nothing to report, fill is a no-op
+    if P.leaf_counts("build") is not None or P.kl_distance("build", "x") is not None or P.fill(X.copy(), "x") is not None:
+        ctx.violation("C08/edge/before_build", "an unbuilt partitioner reports leaf counts / a distance, or fills", **base)
+        return
+    if P.build(X[:, 0].copy()) is not None or P.node is not None or P.leaves:
+        ctx.violation("C08/edge/one_dimensional_input", "build on 1-d data must not create a tree", **base)
+        return
+    P.build(X.copy())
+    mroot, mleaves = K.build(X, cub, 0.0)
+    if compare_trees(P.node, mroot, ctx, base) < 0:
+        return
+    before = [l.num_samples_in_compared_subtrees.get("build") for l in P.leaves]
+    if P.fill(X[:, 0].copy(), "flat") is not None or any("flat" in nd.num_samples_in_compared_subtrees for nd, _, _ in walk(P.node)):
+        ctx.violation("C08/edge/one_dimensional_fill", "fill with 1-d data must leave the tree untouched", **base)
+        return
+    P.fill(X.copy(), "t")
+    v = int(rng.integers(0, 9))
+    P.reset(value=v, tree_id="t")
+    pairs = pair_nodes(P.node, mroot, [])
+    if any(nd.num_samples_in_compared_subtrees.get("t") != v for nd, _ in pairs) or [l.num_samples_in_compared_subtrees.get("build") for l in P.leaves] != before:
+        ctx.violation("C08/edge/reset", "reset(value=%d, tree_id='t') must set every node's count for 't' to %d and leave other ids alone" % (v, v), **base)
+        return
+    P.fill(X.copy(), "t", reset=True)
+    names = ["feat%d" % j for j in range(d)]
+    full = P.to_plotly_dataframe("build", "t", input_cols=names)
+    maxd = int(full["depth"].max())
+    if maxd >= 1:
+        md = int(rng.integers(1, maxd + 1))
+        lim = P.to_plotly_dataframe("build", "t", max_depth=md, input_cols=names)
+        exp = full[full.depth <= md]
+        if len(lim) != len(exp) or lim["idx"].tolist() != exp["idx"].tolist() or int(lim["depth"].max()) > md:
+            ctx.violation("C08/edge/max_depth", "to_plotly_dataframe(max_depth=%d) lists %d nodes, the tree has %d nodes up to that depth" % (md, len(lim), len(exp)), **base)
+            return
+    # node names carry the feature name of the parent's split
+    byid = {id(nd): (nd, par) for nd, _, par in walk(P.node)}
+    for _, r in full.iterrows():
+        nd, par = byid[int(r["idx"])]
+        if par is not None and not str(r["name"]).startswith(names[par.axis] + " "):
+            ctx.violation("C08/edge/plot_names", "node name %r does not name the split feature %r of its parent" % (r["name"], names[par.axis]), **base)
+            return
+    only_ref = P.to_plotly_dataframe("build", None)
+    if "count_diff" in only_ref.columns or "kss" in only_ref.columns or len(only_ref) != len(pairs):
+        ctx.violation("C08/edge/plot_reference_only", "to_plotly_dataframe without a test id must list every node with reference counts only", **base)
+        return
+    ctx.count("edge_cases_checked")
+    ctx.nontrivial = len(mleaves) >= 4
+    ctx.sample = {"kind": "edge", "family": fam, "shape": [n, d], "leaves": len(mleaves)}
+    ctx.digest = "edge-%s" % hash(X.tobytes())
+
+
 def run_case(case, ctx):
     warnings.simplefilter("ignore")
+    if case.get("edge"):
+        return run_edge(case, ctx)
     if "literal" in case:
         lit = case["literal"]
         fam = "literal"
